@@ -1261,12 +1261,9 @@ func funAbs(v *decimal.Big) (*decimal.Big, error) {
 }
 
 func funCeil(v *decimal.Big) (*decimal.Big, error) {
-	if v.IsFinite() && v.Scale()-v.Precision() > 64 {
-		return toIntegral(v, decimal.ToPositiveInf), nil
-	}
-	result := newDecimalBig()
-	decimal.Context64.Ceil(result, v)
-	return result, nil
+	// in the number's own precision: decimal.Context64.Ceil negates in a 16-digit context, which
+	// moved ceil(10000000000000001) below its argument
+	return toIntegral(v, decimal.ToPositiveInf), nil
 }
 
 func funExp(v *decimal.Big) (*decimal.Big, error) {
@@ -1276,12 +1273,7 @@ func funExp(v *decimal.Big) (*decimal.Big, error) {
 }
 
 func funFloor(v *decimal.Big) (*decimal.Big, error) {
-	if v.IsFinite() && v.Scale()-v.Precision() > 64 {
-		return toIntegral(v, decimal.ToNegativeInf), nil
-	}
-	result := newDecimalBig()
-	decimal.Context64.Floor(result, v)
-	return result, nil
+	return toIntegral(v, decimal.ToNegativeInf), nil
 }
 
 func funLn(v *decimal.Big) (*decimal.Big, error) {
